@@ -172,6 +172,36 @@ def _tree_shard(ts):
     return part.data()
 
 
+BIG_LEAVES = [10 ** 6, 999983, 2 ** 31, 10 ** 9 + 7]
+
+
+def _bigchain_shard(cases):
+    """left-deep operator chains whose leaves are LARGE integers, delivered as inputs (so that literal lowering is not involved):
+    `? ? op ? op ...`; intermediate denominators grow past 10^15 / 2^53 / 2^64"""
+    part = explore.Partial()
+    for ops_, leaves in cases:
+        prog = "?" + "".join("?" + o for o in ops_)
+        want = Fraction(leaves[0])
+        for o, v in zip(ops_, leaves[1:]):
+            want = ref(o, want, Fraction(v))
+        part.count()
+        part.nontriv()
+        r = sandbox.run_program(prog, inputs=list(leaves), timeout=20)
+        if r.exc is not None:
+            f, obs = None, "raises " + type(r.exc).__name__
+        elif len(r.stack) != 1:
+            f, obs = None, "stack height %d" % len(r.stack)
+        else:
+            f = exact(r.stack[0])
+            obs = str(r.stack[0])[:80] if f is not None else "%s: %s" % (type(r.stack[0]).__name__, str(r.stack[0])[:50])
+        part.outcome(("bigchain", ops_, want.denominator.bit_length() // 8))
+        if f != want:
+            part.violation("bigchain", {"program": prog, "inputs": list(leaves)}, "operator chain over large integers: result differs from Fraction arithmetic",
+                           {"ops": ops_, "what": "not an exact rational" if f is None else "wrong value"}, str(want), obs,
+                           size=200 + len(ops_))
+    return part.data()
+
+
 def large_family():
     ps = [10 ** 6, 10 ** 6 - 1, 999983, 2 ** 19, -465082, 465082, 123456, -999999]
     qs = [3, 7, 1932, 9973, 10 ** 4, -7, 6]
@@ -214,10 +244,14 @@ def run(tier, seed):
                 chains.append(right)
     ts = ts + chains
     explore.pmap(_tree_shard, explore.chunks(ts, 64), rep, seed)
+    bl = BIG_LEAVES[:3] if tier == "quick" else BIG_LEAVES
+    big = [("".join(o), lv) for k in (2, 3) for o in itertools.product(TREE_OPS, repeat=k) for lv in itertools.product(bl, repeat=k + 1)]
+    big += [("".join(o), lv) for o in itertools.product("/*", repeat=4) for lv in itertools.product(BIG_LEAVES[:3], repeat=5)]
+    explore.pmap(_bigchain_shard, explore.chunks(big, 64), rep, seed)
     rep.section("sizes", small_pairs=len(pairs), large_pairs=len(fam), trees=len(ts))
     rep.rule = ("all ordered pairs over {p/q: |p|<=12, q<=6} (%d values) x 6 operators x 2 representations (Python int where "
                 "integral / sympy); a structured large family; all expression trees over + - * / with 7 leaves up to depth %d%s "
-                "run as Vyxal programs; plus all left-deep and right-deep operator chains of 3..%d operators over 4 [3] leaves. distinct_nontrivial counts distinct operand pairs and distinct trees." % (
+                "run as Vyxal programs; plus all left-deep and right-deep operator chains of 3..%d operators over 4 [3] leaves; plus all left-deep chains of 2-3 operators (and 4 over / *) whose leaves are large integers (10^6, 999983, 2^31 [10^9+7]) delivered as inputs. distinct_nontrivial counts distinct operand pairs and distinct trees." % (
                     len(vals), depth, " plus left-deep depth-2 chains" if tier == "quick" else "", maxops))
     import random
 
@@ -232,6 +266,10 @@ def run(tier, seed):
 
 def replay(art):
     c = art["case"]
+    if "inputs" in c:
+        r = sandbox.run_program(c["program"], inputs=c["inputs"])
+        got = None if r.exc or len(r.stack) != 1 else exact(r.stack[0])
+        return None if str(got) == art["expected"] else str(r.stack if not r.exc else r.exc)
     if "program" in c:
         r = sandbox.run_program(c["program"])
         got = None if r.exc or len(r.stack) != 1 else exact(r.stack[0])
